@@ -6,7 +6,7 @@ from hypothesis import strategies as st
 
 import pytenet as ptn
 from core import Part, require, known_listed
-from gen_krylov import build, krylov_desc
+from gen_krylov import build, krylov_desc, afunc_of
 
 ID = 'C15'
 RULE = ('cases = (Hermitian or general matrix and start vector with Krylov dimension k known by construction, as in C14; '
@@ -41,8 +41,8 @@ def check_eigh(case, rec):
     v0 = v.copy()
     with warnings.catch_warnings():
         warnings.simplefilter('ignore')
-        w, U = ptn.eigh_krylov(lambda x: A @ x, v, m, numeig)
-        alpha, beta, V = ptn.lanczos_iteration(lambda x: A @ x, v, m)
+        w, U = ptn.eigh_krylov(afunc_of(A, case['seed'] // 5), v, m, numeig)
+        alpha, beta, V = ptn.lanczos_iteration(afunc_of(A, case['seed'] // 5), v, m)
     require(v.tobytes() == v0.tobytes(), 'eigh_krylov modified the start vector')
     returned = len(alpha)
     ne = min(numeig, returned)
@@ -98,10 +98,10 @@ def check_expm(case, rec):
         # the flag in its legal forms (bool, numpy.bool_, int)
         fform = [flag, np.bool_(flag), int(flag)][case['seed'] % 3]
         if not flag and (case['seed'] // 3) % 2:
-            y = ptn.expm_krylov(lambda x: A @ x, v, dt, m)      # hermitian=False is the documented default
+            y = ptn.expm_krylov(afunc_of(A, case['seed'] // 5), v, dt, m)      # hermitian=False is the documented default
             rec.label('default_hermitian_argument')
         else:
-            y = ptn.expm_krylov(lambda x: A @ x, v, dt, m, hermitian=fform)
+            y = ptn.expm_krylov(afunc_of(A, case['seed'] // 5), v, dt, m, hermitian=fform)
         # judged after the library has been used again: the result must not live in storage that later calls reuse
         ptn.expm_krylov(lambda x: A @ x, v[::-1].copy(), 0.5 * dt, min(m, 2), hermitian=fform)
     require(v.tobytes() == v0.tobytes(), 'expm_krylov modified the start vector')
